@@ -214,6 +214,9 @@ func init() {
 			cfg.W = map[string]int{"sub": 22, "unsub": 18, "get": 8, "call": 6, "callres": 4, "change": 6, "add": 3, "remove": 3, "custom": 3, "delete": 3, "recreate": 2, "disconnect": 4, "answer": 10, "quiesce": 3}
 			return cfg
 		})
+		if !c.Race {
+			c09LongNames(c)
+		}
 	})
 	Register("C10", func(c *RunCtx) {
 		n := c.N(1600, 40000)
